@@ -3,7 +3,7 @@ import json
 from mirsym import explore, lsp_replay
 from . import ucserver, vfsrun, vfsk
 
-BOUNDS = {'quick': [(2, 1, 2, False), (1, 1, 2, True)], 'thorough': [(3, 1, 2, False), (2, 1, 3, False), (2, 1, 2, True)]}
+BOUNDS = {'quick': [(2, 1, 2, False), (1, 1, 2, True), (1, 1, 2, 1)], 'thorough': [(3, 1, 2, False), (2, 1, 3, False), (2, 1, 2, True), (2, 1, 2, 1), (1, 1, 3, 2)]}
 
 
 def native_check(binary, w):
@@ -32,7 +32,7 @@ def run(chk, tier, jobs):
     binary = None
     for (n, k, changes, full_first) in BOUNDS[tier]:
         res, complete = explore.explore(ucserver.didchange_factory, (n, k, changes, full_first), jobs=jobs)
-        name = 'on_did_change loop: doc=%d bytes, %d changes (%s), %d-byte texts' % (n, changes, 'first one full-text' if full_first else 'all ranged', k)
+        name = 'on_did_change loop: doc=%d bytes, %d changes (%s), %d-byte texts' % (n, changes, ('first one full-text' if full_first is True else 'change #%d full-text' % full_first) if full_first is not False else 'all ranged', k)
         chk.add_run(name, res, complete, {'doc_bytes': n, 'changes_per_notification': changes, 'insert_bytes': k, 'positions': 'arbitrary u32', 'mode': 'under-constrained server, real Vfs/convert'},
                     nontrivial_classes=lambda c: c in ('forgotten', 'applied'))
         seen = set()
